@@ -622,6 +622,19 @@ theorem read_request_coherent (c : Cfg V E) (ex : V → X) (h : ExportExact c.o 
   refine ⟨fun hf => ?_, h3 p, fun hs hfree => activation_coherent c ex h init progs clock s hn hr k p hs hfree⟩
   rw [h2 t hf, hprog, annR_readReqOps]
 
+/-- the same for a `do` request whose command assigns the parameter -/
+theorem do_request_coherent (c : Cfg V E) (ex : V → X) (h : ExportExact c.o ex) (init : Pid → Entry V E)
+    (progs : Tid → List (Op V E)) (clock : Int) (s : Sys V E) (hn : c.conns.Nodup)
+    (hr : Reach c (Sys.init init progs clock c.act0) s)
+    (t : Tid) (k : Cid) (p : Pid) (inner : List V) (hprog : progs t = doOps k p inner) :
+    (finished s t = true → doneBy t s.ghist = (innerEvs inner).map (fun ev => (p, resolve c.o ev))) ∧
+    s.hist p = onParam p s.ghist ∧
+    (Sub c s k p → (∀ t', pcPid (s.thr t').pc ≠ some p) →
+      replayO (known0 c ex init k p) ((plog s k p).map (fun m => m.ve.map ex)) = some ((s.entries p).ve.map ex)) := by
+  obtain ⟨_, h2, h3⟩ := hist_is_interleaving c init progs clock s hr
+  refine ⟨fun hf => ?_, h3 p, fun hs hfree => activation_coherent c ex h init progs clock s hn hr k p hs hfree⟩
+  rw [h2 t hf, hprog, annR_doOps]
+
 end concurrent
 
 /-- Facts about the constants of the source the model relies on (regenerated from the repository on every
@@ -862,6 +875,13 @@ example : (runSched exCfg exSR exSchedR).map (fun s => (s.dlock, s.alock, s.adep
 example : (runSched exCfg exSR [0, 0, 0]).map (fun s => (s.dlock, s.alock, s.adepth)) = some (some 0, some 0, 2) := by decide
 example : (runSched (V := Nat) (E := Nat) exCfg (Sys.init exInit (fun t => if t = 0 then exProgsR 0 else [.accAcquire]) 101 exCfg.act0)
     [0, 0, 0, 1]).isNone = true := by decide
+
+/-- connection 2 sends `do cmd`; the command assigns 8 and then 9 -/
+example : (doOps 2 0 [8, 9] : List (Op Nat Nat)) =
+    [.reqAcquire 2, .announce 0 (assignEv 8) .absent, .announce 0 (assignEv 9) .absent, .reqRelease] := rfl
+example : (runSched exCfg (Sys.init exInit (fun t => if t = 0 then doOps 2 0 [8, 9] else []) 101 exCfg.act0)
+    (List.replicate 28 0)).map (fun s => ((s.logs 2 0).map (·.msg.ve), (s.entries 0).ve, finished s 0)) =
+    some ([.val 8, .val 9], .val 9, true) := by decide
 
 end examples
 
